@@ -5,6 +5,7 @@ package vhm
 import (
 	"context"
 	"fmt"
+	"github.com/modelcontextprotocol/go-sdk/auth"
 	"io"
 	"net/http"
 	"runtime"
@@ -33,6 +34,7 @@ type PairOpts struct {
 	MaxRetries           int
 	DisableStandaloneSSE bool
 	AsyncDelete          bool
+	OAuth                auth.OAuthHandler // streamable client: OAuthHandler (the server need not require authorization)
 }
 
 // Pair is a connected client/server session pair.
@@ -156,7 +158,7 @@ func Connect(ctx context.Context, o PairOpts) (*Pair, error) {
 		h := mcp.NewStreamableHTTPHandler(func(*http.Request) *mcp.Server { return o.Server }, &ho)
 		p.H = h
 		p.InProc = &InProc{Handler: h, Log: o.Log, AsyncDelete: o.AsyncDelete}
-		ct := &mcp.StreamableClientTransport{Endpoint: "http://example.test/mcp", HTTPClient: p.InProc.Client(), MaxRetries: o.MaxRetries, DisableStandaloneSSE: o.DisableStandaloneSSE}
+		ct := &mcp.StreamableClientTransport{Endpoint: "http://example.test/mcp", HTTPClient: p.InProc.Client(), MaxRetries: o.MaxRetries, DisableStandaloneSSE: o.DisableStandaloneSSE, OAuthHandler: o.OAuth}
 		cs, err := o.Client.Connect(ctx, maybeWrap(ct, o.WrapClient), copts)
 		if err != nil {
 			return nil, err
